@@ -16,7 +16,7 @@ import (
 
 func init() {
 	register(&Rule{
-		ID: "IT-4", Props: []string{"C03", "C04", "C01", "C06", "C16"}, Min: 44,
+		ID: "IT-4", Props: []string{"C03", "C04", "C01", "C06", "C16"}, Min: 30,
 		Doc: `order discipline at every push: the number of a pushed batch is (i) pass-through: the number of the batch obtained in the same iteration, and the
 push happens exactly once per obtained batch on every path (a keep-order stage that skips a batch leaves a hole on which every re-sequencer stalls); or (ii) a counter that
 starts at 0 and is incremented exactly once between two pushes (local variable, synchronised counter closure, per-key map counter, range index), the consumed iterator being
